@@ -7,6 +7,7 @@ import Peppi.Lemmas.PeppiRead
 import Peppi.Lemmas.PeppiRound
 import Peppi.Lemmas.C09P
 import Peppi.Tar
+import Peppi.SlppBytes
 set_option linter.unusedVariables false
 namespace Peppi.Props.C18
 
@@ -36,7 +37,7 @@ theorem tarArchive_starts (name data : Bytes) (es : List (Bytes × Bytes)) :
 
 /- from `Peppi.Tar` -/
 theorem tarRead_archive (es : List (Bytes × Bytes)) (hes : ∀ e ∈ es, EntryOK e) (fuel : Nat) (hf : es.length < fuel) :
-    tarRead fuel (tarArchive es) = .ok es :=
+    tarRead fuel (tarArchive es) = .ok (es, true) :=
   _root_.Peppi.tarRead_archive es hes fuel hf
 
 /- from `Peppi.Tar` -/
@@ -46,5 +47,24 @@ theorem tarEntry_length (e : Bytes × Bytes) (hn : e.1.length ≤ 100) : (tarEnt
 /- from `Peppi.Tar` -/
 theorem parseOctal_octal (k n : Nat) (h : n < 8 ^ k) : parseOctal (octal k n) = some n :=
   _root_.Peppi.parseOctal_octal k n h
+
+/- from `Peppi.SlppBytes` -/
+theorem slppRead_written {χ : Type} (C : Codec χ) (T : TextOracle) (g : PGame χ) (startBytes : Bytes) (endBytes : Option Bytes)
+    (hstart : gameStart T startBytes = .ok g.start)
+    (hend : endBytes.map gameEnd = g.fend.map Res.ok)
+    (hgecko : ∀ c, g.gecko = some c → c.2 < 2 ^ 32)
+    (hs : SizesOK C g startBytes endBytes) (skip : Bool) :
+    slppRead C T skip (slppWrite C g startBytes endBytes) = .ok (if skip then { g with frames := none } else g) :=
+  _root_.Peppi.slppRead_written C T g startBytes endBytes hstart hend hgecko hs skip
+
+/- from `Peppi.SlppBytes` -/
+theorem slppWrite_signature {χ : Type} (C : Codec χ) (g : PGame χ) (startBytes : Bytes) (endBytes : Option Bytes) :
+    (slppWrite C g startBytes endBytes).take 10 = N_PEPPI :=
+  _root_.Peppi.slppWrite_signature C g startBytes endBytes
+
+/- from `Peppi.Tar` -/
+theorem tarArchive_length_ge (es : List (Bytes × Bytes)) (hn : ∀ e ∈ es, e.1.length ≤ 100) :
+    512 * es.length + 1024 ≤ (tarArchive es).length :=
+  _root_.Peppi.tarArchive_length_ge es hn
 
 end Peppi.Props.C18
